@@ -88,6 +88,11 @@ def gen_update_opts(rng, info, prior_kind, allow_sub=True, api=None):
         u['create'] = True       # `gemato create` / allow_create=True over a tree that already has its Manifests
     if u['api'] == 'cli':
         u.pop('sort', None)      # no CLI flag for it
+        if 'path' in u and rng.random() < 0.35:
+            # one invocation naming two directories that share the top-level Manifest
+            others = [d for d in info['dirs'] if d and d != u['path'] and not any(c.startswith('.') for c in d.split('/'))]
+            if others:
+                u['path2'] = rng.choice(others)
     elif rng.random() < 0.2 and prior_kind != 'absent':
         u['pre_verify'] = rng.choice(['', ''] + [d for d in info['dirs'] if d][:3])
         if info.get('files'):
